@@ -225,7 +225,13 @@ def tail_duplicate_flags(fn: ast.AST, noreturn: Set[str]) -> int:
                 if not isinstance(st, ast.If) or i + 1 >= len(blk):
                     continue
                 rest = blk[i + 1 :]
-                if _count_stmts(rest) > MAX_REST or any(isinstance(n, (ast.FunctionDef, ast.AsyncFunctionDef, ast.ClassDef)) for s in rest for n in ast.walk(s)):
+                # a continuation that is nothing but the decision on one flag costs no duplication to speak of: each
+                # branch keeps the one arm its constant selects
+                t0 = rest[0].test if len(rest) == 1 and isinstance(rest[0], ast.If) else None
+                if isinstance(t0, ast.UnaryOp) and isinstance(t0.op, ast.Not):
+                    t0 = t0.operand
+                sole_decision = isinstance(t0, ast.Name) and len([1 for o, f in _chain_leaves(st) if not _ends(getattr(o, f), noreturn)]) <= 3
+                if (_count_stmts(rest) > MAX_REST and not sole_decision) or any(isinstance(n, (ast.FunctionDef, ast.AsyncFunctionDef, ast.ClassDef)) for s in rest for n in ast.walk(s)):
                     continue
                 leaves = _chain_leaves(st)
                 open_leaves = [(o, f) for o, f in leaves if not _ends(getattr(o, f), noreturn)]
@@ -250,6 +256,68 @@ def tail_duplicate_flags(fn: ast.AST, noreturn: Set[str]) -> int:
                     b = getattr(o, f)
                     b[:] = [s for s in b if not isinstance(s, ast.Pass)] + [copy.deepcopy(s) for s in rest]
                 del blk[i + 1 :]
+                changed += 1
+                did = True
+                break
+            if did:
+                break
+        if not did:
+            break
+    return changed
+
+
+def sink_sole_decision(fn: ast.AST, noreturn: Set[str]) -> int:
+    """`if c: t = E1 else: t = E2` followed by `if t: A else: B`, t read nowhere else: the decision moves into the branches
+    — a constant picks its arm, an expression becomes the test.  At most one branch may carry a non-constant (one extra copy
+    of the arms); this is what remains of a boolean helper (`if helper(x):`) once its body has been inlined."""
+    changed = 0
+    for _round in range(4):
+        did = False
+        for blk, _o, _f in _blocks_with_owner(fn):
+            for i, st in enumerate(blk):
+                if not isinstance(st, ast.If) or i + 1 >= len(blk) or not isinstance(blk[i + 1], ast.If):
+                    continue
+                dec = blk[i + 1]
+                t0, neg = dec.test, False
+                if isinstance(t0, ast.UnaryOp) and isinstance(t0.op, ast.Not):
+                    t0, neg = t0.operand, True
+                if not isinstance(t0, ast.Name):
+                    continue
+                nm = t0.id
+                if _uses(fn, nm) != 1:
+                    continue
+                leaves = [(o, f) for o, f in _chain_leaves(st)]
+                open_leaves = [(o, f) for o, f in leaves if not _ends(getattr(o, f), noreturn)]
+                if not open_leaves or len(open_leaves) > 3:
+                    continue
+                vals = []
+                for o, f in open_leaves:
+                    b = [x for x in getattr(o, f) if not isinstance(x, ast.Pass)]
+                    last = b[-1] if b else None
+                    if not (isinstance(last, ast.Assign) and len(last.targets) == 1 and isinstance(last.targets[0], ast.Name) and last.targets[0].id == nm):
+                        vals = None
+                        break
+                    if any(isinstance(n, ast.Name) and n.id == nm and isinstance(n.ctx, ast.Store) for x in b[:-1] for n in ast.walk(x)):
+                        vals = None
+                        break
+                    vals.append(last.value)
+                if vals is None or len(_store_nodes(fn, nm)) != len(open_leaves):
+                    continue
+                if sum(1 for v in vals if _truth(v) is None) > 1:
+                    continue
+                A, B = (dec.orelse, dec.body) if neg else (dec.body, dec.orelse)
+                for (o, f), v in zip(open_leaves, vals):
+                    b = [x for x in getattr(o, f) if not isinstance(x, ast.Pass)][:-1]
+                    t = _truth(v)
+                    if t is True:
+                        tail = [copy.deepcopy(x) for x in A]
+                    elif t is False:
+                        tail = [copy.deepcopy(x) for x in B]
+                    else:
+                        tail = [ast.copy_location(ast.If(v, [copy.deepcopy(x) for x in A] or [ast.Pass()], [copy.deepcopy(x) for x in B]), dec)]
+                    setattr(o, f, (b + tail) or [ast.copy_location(ast.Pass(), dec)])
+                del blk[i + 1]
+                ast.fix_missing_locations(st)
                 changed += 1
                 did = True
                 break
@@ -790,7 +858,7 @@ def run(fn: ast.AST, noreturn: Set[str]) -> int:
     n = drop_self_assignments(fn)
     for _k in range(4):
         e = expand_table_lookups(fn)
-        a = tail_duplicate_flags(fn, noreturn)
+        a = tail_duplicate_flags(fn, noreturn) + sink_sole_decision(fn, noreturn)
         g = sink_small_continuations(fn, noreturn)
         b = propagate_flag_constants(fn)
         c = prune_constant_tests(fn)
